@@ -162,6 +162,7 @@ impl FrameDecoder {
                 let blocks = s1.block_counter - s0.block_counter;
                 let grown = s1.decoder_scratch.buffer.spec_len() - s0.decoder_scratch.buffer.spec_len();
                 &&& fin == s1.frame_finished
+                &&& final(source).avail() >= 0
                 // exact accounting of source bytes
                 &&& s1.bytes_read_counter - s0.bytes_read_counter == old(source).avail() - final(source).avail()
                 // strictly one block after the other, at least one per call
@@ -186,7 +187,9 @@ impl FrameDecoder {
     pub fn read(&mut self, target: &mut [u8]) -> (r: Result<usize, Error>)
         ensures
             final(target)@.len() == old(target)@.len(),
-            r matches Ok(n) ==> n <= old(target)@.len(),
+            r matches Ok(n) ==> n <= old(target)@.len()
+                && n == (if old(self).spec_can_collect() < old(target)@.len() { old(self).spec_can_collect() } else { old(target)@.len() as int })
+                && final(self).spec_can_collect() == old(self).spec_can_collect() - n,
             final(self).state is Some <==> old(self).state is Some,
             old(self).state matches Some(s0) ==> ({
                 let s1 = final(self).state->0;
@@ -197,6 +200,14 @@ impl FrameDecoder {
     { unimplemented!() }
     #[verifier::external_body]
     pub fn can_collect(&self) -> (r: usize) ensures r == self.spec_can_collect(), { unimplemented!() }
+    /// `BorrowMut<FrameDecoder> for FrameDecoder` is the identity
+    pub fn borrow_mut(&mut self) -> (r: &mut FrameDecoder)
+        ensures *r == *old(self), *final(r) == *final(self),
+    { self }
+    /// what every streaming entry point maintains: once the last block has been decoded, its checksum (if flagged) has been read too
+    pub open spec fn streaming_inv(&self) -> bool {
+        self.state matches Some(s) ==> (s.frame_finished && s.frame_header.descriptor.spec_checksum_flag() ==> s.check_sum is Some)
+    }
     #[verifier::external_body]
     pub fn is_finished(&self) -> (r: bool) ensures r == self.spec_is_finished(), { unimplemented!() }
 
@@ -270,6 +281,76 @@ impl FrameDecoder {
         Ok(total_bytes_written)
     }
 
+}
+
+impl Error {
+    #[verifier::external_body]
+    pub fn other<E>(e: E) -> Error { unimplemented!() }
+}
+
+pub struct StreamingDecoder<READ: Read> {
+    pub decoder: FrameDecoder,
+    pub source: READ,
+}
+
+impl<READ: Read> StreamingDecoder<READ> {
+#[verifier::loop_isolation(false)]
+    pub fn read(&mut self, buf: &mut [u8]) -> (r: Result<usize, Error>)
+        requires
+            !READ::incremental(), old(self).source.avail() >= 0,
+            old(self).decoder.streaming_inv(), old(self).decoder.spec_can_collect() >= 0,
+            old(self).decoder.state matches Some(st) ==> st.bytes_read_counter + old(self).source.avail() <= u64::MAX && st.block_counter + old(self).source.avail() <= usize::MAX
+                && st.decoder_scratch.buffer.spec_len() >= 0,
+        ensures
+            final(buf)@.len() == old(buf)@.len(),
+            r matches Ok(n) ==> n <= old(buf)@.len()
+                // a short read happens only when the frame is finished (C06: the bytes do not depend on the request sizes)
+                && (n < old(buf)@.len() ==> final(self).decoder.spec_is_finished())
+                // Ok(0) for a non-empty request means: finished and drained
+                && (n == 0 && old(buf)@.len() > 0 ==> final(self).decoder.spec_is_finished() && final(self).decoder.spec_can_collect() == 0),
+{
+        let decoder = self.decoder.borrow_mut();
+        if decoder.is_finished() && decoder.can_collect() == 0 {
+            //No more bytes can ever be decoded
+            return Ok(0);
+        }
+
+        // need to loop. The UpToBytes strategy doesn't take any effort to actually reach that limit.
+        // The first few calls can result in just filling the decode buffer but these bytes can not be collected.
+        // So we need to call this until we can actually collect enough bytes
+
+        // TODO add BlockDecodingStrategy::UntilCollectable(usize) that pushes this logic into the decode_blocks function
+        while decoder.can_collect() < buf.len() && !decoder.is_finished() 
+            invariant
+                self.source.avail() >= 0,
+                decoder.streaming_inv(),
+                decoder.state matches Some(st) ==> st.bytes_read_counter + self.source.avail() <= u64::MAX && st.block_counter + self.source.avail() <= usize::MAX
+                    && st.decoder_scratch.buffer.spec_len() >= 0,
+            decreases self.source.avail(),
+{
+            //More bytes can be decoded
+            let additional_bytes_needed = buf.len() - decoder.can_collect();
+            // C05: never ask for more than what is missing to serve the request
+            proof { assert(additional_bytes_needed + decoder.spec_can_collect() <= buf@.len()); assert(additional_bytes_needed >= 1); }
+            match decoder.decode_blocks(
+                &mut self.source,
+                BlockDecodingStrategy::UptoBytes(additional_bytes_needed),
+            ) {
+                Ok(_) => { /*Nothing to do*/ }
+                Err(e) => {
+                    let err;
+                    
+                    {
+                        err = Error::other(e);
+                    }
+                    
+                    return Err(err);
+                }
+            }
+        }
+
+        decoder.read(buf)
+    }
 }
 
 pub proof fn verif_canary_must_fail(x: int)
